@@ -154,9 +154,10 @@ def spec_p_corr(rep, rng, n):
     Spec.UpdateP.upd_p over the priority images and compares with the priority image of the built tree.  A difference in the VALUES is a
     concrete failing input of the property; a difference only in node priorities breaks the correspondence obligation."""
     prof = gen.PROFILES['priomap']
+    prof_new = gen.Profile(p_tag=0.35, tags=gen.PRIO_TAGS + ['!new', '!unsafe'], p_seq=0.0, p_map=0.55, meta=0.2, p_empty=0.05)   # !new / !unsafe marks are inside the class
     items, shown, ditems = [], [], []
     for i in range(n):
-        docs = gen_three_stage(rng) if i % 4 == 0 else gen.gen_history(rng, prof, 2, 5)
+        docs = gen_three_stage(rng) if i % 4 == 0 else gen.gen_history(rng, prof_new if i % 4 == 1 else prof, 2, 5)
         it = spec_items(docs)
         if it is None:
             continue
